@@ -26,6 +26,20 @@ mut("c01-run-trigger-before-panic", ["C01"], "panic-set-before-trigger",
 ben("c01-join-wait-seqcst", ["C01"],
     ("src/join.rs", "self.state.store(false, Ordering::Release);", "self.state.store(false, Ordering::SeqCst);"))
 
+# ---- F20: revert (a worker never looks at its global queue while its local queue stays non-empty)
+mut("f20-revert-global-poll", ["C01"], "worker/every-run-cycle-polls-global",
+    ("src/scheduler.rs", "                    run_coroutine(co);\n                    // see the comment of `GLOBAL_POLL_INTERVAL`\n                    ticks = ticks.wrapping_add(1);\n                    if ticks % GLOBAL_POLL_INTERVAL == 0 {\n                        self.collect_global(id);\n                    }\n                    continue 'work;",
+     "                    run_coroutine(co);\n                    let _ = ticks;\n                    continue 'work;"))
+mut("f20-counter-never-advances", ["C01"], "worker/every-run-cycle-polls-global",
+    ("src/scheduler.rs", "                    ticks = ticks.wrapping_add(1);\n                    if ticks % GLOBAL_POLL_INTERVAL == 0 {\n                        self.collect_global(id);\n                    }\n                    continue 'work;",
+     "                    ticks = ticks.wrapping_add(0);\n                    if ticks % GLOBAL_POLL_INTERVAL == 0 {\n                        self.collect_global(id);\n                    }\n                    continue 'work;"))
+ben("f20-poll-every-iteration", ["C01"],
+    ("src/scheduler.rs", "                    ticks = ticks.wrapping_add(1);\n                    if ticks % GLOBAL_POLL_INTERVAL == 0 {\n                        self.collect_global(id);\n                    }\n                    continue 'work;",
+     "                    let _ = ticks;\n                    self.collect_global(id);\n                    continue 'work;"))
+# ---- F21: revert (the local queue is not served after the io timer list)
+mut("f21-revert-run-after-timers", ["C18", "C08"], "select/local-queue-served-after-timers",
+    ("src/io/sys/unix/epoll.rs", "        #[cfg(feature = \"io_timeout\")]\n        scheduler.run_queued_tasks(id);\n\n        Ok(next_expire)", "        Ok(next_expire)"))
+
 # ---- F18: revert (nested run while the wait_kernel guard is held)
 mut("f18-revert-nested-run-under-guard", ["C01", "C02"], "no-nested-run-under-guard",
     ("src/park.rs", "                drop(g);\n                // here may have recursive call for subscribe", "                let _keep = &g;\n                // here may have recursive call for subscribe"))
